@@ -10,6 +10,9 @@ fn w(map: &mut BTreeMap<String, u32>, k: &str, v: u32) {
 
 /// Draws the per-run configuration (topology, channel type, node knobs, action weights).
 pub fn gen_config(profile: &str, rng: &mut Rng, tier: Tier) -> Config {
+	// `deadlinecrash` = `deadlines` plus crashes and restarts of any node
+	let with_crashes = profile == "deadlinecrash";
+	let profile = if with_crashes { "deadlines" } else { profile };
 	let mut r = rng.fork("config");
 	let chan_type = *r.pick(&[ChanType::Legacy, ChanType::Anchors, ChanType::ZeroFee]);
 	let n_nodes = match profile {
@@ -136,6 +139,14 @@ pub fn gen_config(profile: &str, rng: &mut Rng, tier: Tier) -> Config {
 		w(&mut weights, "Gone", *r.pick(&[0, 1, 2]));
 		w(&mut weights, "Claim", *r.pick(&[2, 6, 12]));
 		w(&mut weights, "FailBack", *r.pick(&[0, 2]));
+		if with_crashes {
+			w(&mut weights, "Crash", *r.pick(&[1, 2]));
+			// crashes between actions only: a paced block is many library calls in one action, and
+			// the freeze-at-a-persist-call crash model is defined per single call
+			w(&mut weights, "ArmCrash", 0);
+			w(&mut weights, "Restart", 8);
+			w(&mut weights, "PersistMgr", *r.pick(&[1, 3, 8]));
+		}
 	}
 	if profile == "tamper" {
 		w(&mut weights, "Tamper", *r.pick(&[2, 4, 8]));
@@ -575,6 +586,17 @@ pub fn gen_liq_plan(wd: &World, rng: &mut Rng) -> Action {
 	let mut fees = Vec::new();
 	for _ in 0..rng.below(4) {
 		fees.push((rng.below(50) as u32, rng.below(n as u64) as usize, *rng.pick(&[253u32, 1000, 5000, 12_000, 25_000])));
+	}
+	// correlated pattern: confirmations stall for a while and the fee estimate collapses (or
+	// jumps) in the middle of the stall, so that pending claims are re-issued under the new estimate
+	if rng.chance(1, 2) {
+		let from = rng.below(30) as u32;
+		let len = rng.range(3, 8) as u32;
+		holds.push((from, len));
+		let rate = *rng.pick(&[253u32, 253, 600, 1000, 25_000]);
+		for node in 0..n {
+			fees.push((from + 1 + rng.below(2) as u32, node, rate));
+		}
 	}
 	Action::LiqPlan { holds, restarts, fees }
 }
